@@ -7,6 +7,7 @@ CONSTANTS
   MaxOps = 6
   MaxDeletes = 2
   Coords = {"A", "X"}
+  MaxRestores = 1
   GetDs = {0, 1}
 INVARIANTS Inv_ExactlyOne Inv_NoForeign Inv_AssignedExist Inv_Balanced Inv_SameEpochSame Inv_Converged Inv_Impl
 PROPERTIES StepsOK
